@@ -191,6 +191,26 @@ pub fn produce(r: &mut Rng, out: &mut String, b: &str, t: &[(u32, u32)], which: 
                 "push-and-ranges"
             }
         }
+        7 => {
+            // a sparse part of the target first (array chunks), then overlapping ranges over it
+            writeln!(out, "new {}", b).unwrap();
+            let pre: Vec<String> = all.iter().step_by(2).take(3000).map(|x| x.to_string()).collect();
+            for ch in pre.chunks(500) {
+                writeln!(out, "extend {} {}", b, ch.join(" ")).unwrap();
+            }
+            for &(s, l) in t {
+                if l >= 6 {
+                    // two overlapping pieces
+                    let a_end = s as u64 + (2 * l as u64) / 3;
+                    let b_start = s as u64 + l as u64 / 3;
+                    writeln!(out, "insert_range {} in:{} ex:{}", b, b_start, s as u64 + l as u64).unwrap();
+                    writeln!(out, "insert_range {} in:{} ex:{}", b, s, a_end).unwrap();
+                } else {
+                    writeln!(out, "insert_range {} in:{} ex:{}", b, s, s as u64 + l as u64).unwrap();
+                }
+            }
+            "sparse-then-overlapping-ranges"
+        }
         _ => {
             // clone of a value built by ranges, after the destination held something else
             writeln!(out, "new b9").unwrap();
@@ -205,7 +225,7 @@ pub fn produce(r: &mut Rng, out: &mut String, b: &str, t: &[(u32, u32)], which: 
     }
 }
 
-pub const N_PRODUCERS: u64 = 7;
+pub const N_PRODUCERS: u64 = 8;
 
 pub fn gen_case(r: &mut Rng, out: &mut String) {
     let t = target(r);
